@@ -1,5 +1,5 @@
 (* Codec/Props_codec.v — property theorems of the codec area (statement + `exact lemma` only). *)
-From FlacCodec Require Import Parser_proofs Wf Spec Roundtrip_sub Roundtrip_hdr Roundtrip_frame Agree_frame Totality Progress Stream.
+From FlacCodec Require Import Parser_proofs Wf Spec Roundtrip_sub Roundtrip_hdr Roundtrip_frame Agree_frame Totality Progress Stream EncChoice Damage.
 From FlacBase Require Import Crc.
 Open Scope N_scope.
 
@@ -55,6 +55,26 @@ Proof. exact dec_stream_total. Qed.
 Theorem C04_frame_progress : forall si chk bytes h chans rest,
   dec_frame si chk bytes = Ok (h, chans, rest) -> (length rest + 2 <= length bytes)%nat.
 Proof. exact dec_frame_progress. Qed.
+
+(* C19: whatever candidates the (float) heuristics hand to encode_subframe's decision structure, the
+   subframe it picks is no larger than 8 bits + the samples verbatim at the subframe's bit depth ... *)
+Theorem C19_subframe_bound : forall bps xs fixed lpc,
+  (1 <= length xs)%nat -> 1 <= bps -> (forall w, common_wasted xs = Some w -> w < bps) ->
+  sf_bits bps (enc_subframe bps xs fixed lpc) <= 8 + N.of_nat (length xs) * bps.
+Proof. exact enc_subframe_bound. Qed.
+(* ... and a frame is at most 16 header bytes + its subframes rounded up to bytes + 2 CRC bytes *)
+Theorem C19_frame_bound : forall f bytes (body_bits : nat),
+  write_frame f = Some bytes ->
+  (length (write_subframes (h_assign (f_hdr f)) (h_bps (f_hdr f)) 0 (f_subs f)) <= body_bits)%nat ->
+  (length bytes <= 16 + (body_bits + 7) / 8 + 2)%nat.
+Proof. exact frame_bytes_bound. Qed.
+
+(* C05 at frame level: a single flipped bit inside a frame is never decoded as a frame of the same length *)
+Theorem C05_flipped_frame_rejected : forall si chk bytes h c rest i k h' c' rest',
+  Forall byte bytes -> dec_frame si chk bytes = Ok (h, c, rest) ->
+  (i < length bytes - length rest)%nat -> k < 8 ->
+  dec_frame si chk (flip16 bytes i k) = Ok (h', c', rest') -> length rest' <> length rest.
+Proof. exact flipped_frame_not_same_length. Qed.
 
 (* non-vacuity: a concrete well-formed frame (16-bit mono, 4 samples, FIXED order 1, one Rice partition) *)
 Definition ex_hdr : header := {| h_variable := false; h_bs_code := 6; h_bs := 4; h_rate_code := 9; h_rate := 44100;
